@@ -1,5 +1,5 @@
 PROP = {
-    "modules": ["IdenaModel.Props.C03"],
+    "modules": ["IdenaModel.Props.C03", "IdenaModel.Props.C03Flags"],
     "theorems": [
         "IdenaModel.BlockValidate.validate_ok_iff",
         "IdenaModel.BlockValidate.validate_sound",
@@ -9,10 +9,19 @@ PROP = {
         "IdenaModel.BlockValidate.original_still_insertable",
         "IdenaModel.BlockValidate.fields_classified",
         "IdenaModel.BlockValidate.derived_free_disjoint",
+        "IdenaModel.Flags.transition_cases",
+        "IdenaModel.Flags.finished_needs",
+        "IdenaModel.Flags.finished_has_identity_update",
+        "IdenaModel.Flags.snapshot_needs",
+        "IdenaModel.Flags.period_steps_by_one",
+        "IdenaModel.Flags.thresholds_ordered",
+        "IdenaModel.Flags.afterlong_counts",
+        "IdenaModel.Flags.afterlong_completes",
     ],
-    "channels": [{"name": "C03", "exe": "oracle_c03"}],
+    "channels": [{"name": "C03", "exe": "oracle_c03"}, {"name": "C03flags", "exe": "oracle_c03f"}],
+    "shim_tags": ["c03"],
     "trusted_base": [
-        "the recomputation functions (DeriveSha, cid, processTxs+applyBlockOnState, calculateFlags, bloom, VRF ProofToHash) are parameters; tamper_rejected for SeedProof assumes uniqueness of the VRF proof for a given output (hypothesis hvrf)",
+        "the recomputation functions (DeriveSha, cid, processTxs+applyBlockOnState, bloom, VRF ProofToHash) are parameters of the validation theorems; calculateFlags, the timing predicates and the period / after-long / snapshot part of applyGlobalParams are modelled concretely (Model/Flags.lean) and compared block by block with real histories (channel C03flags; the offline flags are the proposer's free choice and masked; applyNewEpoch's changes to next validation time and shard count are re-read after every finishing block); tamper_rejected for SeedProof assumes uniqueness of the VRF proof for a given output (hypothesis hvrf)",
         "that validation runs on a private view (reject_no_effect) rests on C13; the harness additionally compares B's full database hash before/after every refusal",
         "header field lists are re-extracted from blockchain/types/types.go by go/ast at run time and classified by the Lean driver (an unknown field fails the correspondence)"],
     "assumptions": ["empty blocks: accepted iff hash equals the locally generated empty block (all fields derived)"],
